@@ -213,6 +213,18 @@ def _s18(s):
             op(None, I(L))]
 
 
+@skeleton('parameters-in-pad-and-wflip', 3, lambda s: True)
+def _s19(s):
+    P, L, It = s
+    # arguments are substituted into EVERY statement kind of a macro body: the alignment of a pad, the address / value / return
+    # address of a wflip - also through a nested call and a rep iterator; the caller's label may be spelled like the parameter
+    return [mdef('padder', [P], body=[('pad', I(P)), op(None, None)]),
+            mdef('wf', [P, 'v'], body=[('wflip', I(P), I('v'), None), ('wflip', ('+', I(P), W), ('+', I('v'), 1), I(P))]),
+            mdef('both', [P, 'k'], body=[call('padder', I('k')), call('wf', I(P), ('*', I('k'), 3))]),
+            lab(L), op(None, I(L)), call('padder', 2), call('padder', 4), call('wf', I(L), 5), call('both', I(L), 2),
+            rep(2, It, 'padder', ('+', I(It), 1)), rep(2, It, 'wf', I(L), ('+', I(It), 6)), op(None, I(L))]
+
+
 def programs(pool=POOL):
     """yield (skeleton name, slots, program, collisions) for every well-formed assignment"""
     for name, n, wf, build in SKELETONS:
